@@ -86,6 +86,17 @@ def plan(tier, seed):
                 obs.append(Ob(name=f'{nm}_{vn}_L{n}', factory='vt.props.c04:make_variant', spec=spec,
                               params=[(f'c{i}', 0, UNI) for i in range(n)], budget=BUDGET[n], group=f'A:{vn}',
                               require_tags=('ok',) if n == 3 and nm not in ('mutual', 'cut_in_leftrec') else ()))
+    # tracing must not move the parse cursor: grammars whose patterns / upper-case rules / any-char see the whitespace themselves, default whitespace
+    WS = {
+        'ws_pattern_after_token': [('start', S(T('a'), P('[ b]+'), OPT(T('c'))))],
+        'ws_upper_rule': [('start', S(T('a'), C('SP'), T('b'))), ('SP', P('[ \\t]+'))],
+        'ws_anychar_after_cut': [('start', A(S(T('a'), CUT, ('dot',), OPT(T('b'))), P('..')))],
+    }
+    for nm, rs in WS.items():
+        for n in ((2, 3) if tier == 'quick' else (2, 3, 4)):
+            spec = {'grammar': nm, 'rules': rs, 'n': n, 'settings': {}, 'ref': False, 'variants': [VARIANTS['memo1']], 'warm': ['a b', 'a  ', 'a\tb', 'ab', 'a b c', ' a', 'a ', 'a bc'], 'trace': True}
+            obs.append(Ob(name=f'{nm}_trace_L{n}', factory='vt.props.c04:make_variant', spec=spec, params=[(f'c{i}', 0, UNI) for i in range(n)],
+                          budget={2: 120, 3: 500, 4: 2400}[n], group='A:trace-ws', require_tags=('ok',) if n == 3 else ()))
     # two-cycle component at length 5 over its own alphabet (stated: not all of Unicode at this length)
     alpha = sorted({ord(c) for c in 'abcxyq'})
     for nm, rs in (('two_cycles', TWO_CYCLES), ('two_cycles_cut', TWO_CYCLES_CUT)):
